@@ -38,6 +38,8 @@ impl Deref for SharedBytes {
 impl Clone for SharedBytes {
     #[inline]
     fn clone(&self) -> Self {
+        #[cfg(assets_manager_verif)]
+        detsim::atomic_point(detsim::AT_BYTES, "bytes.clone");
         self.inner().count.fetch_add(1, Ordering::Relaxed);
         Self { ptr: self.ptr }
     }
@@ -47,6 +49,8 @@ impl Drop for SharedBytes {
     #[inline]
     fn drop(&mut self) {
         // Synchronize with `drop_slow`
+        #[cfg(assets_manager_verif)]
+        detsim::atomic_point(detsim::AT_BYTES, "bytes.drop");
         if self.inner().count.fetch_sub(1, Ordering::Release) == 1 {
             unsafe {
                 self.drop_slow();
@@ -95,6 +99,8 @@ impl SharedBytes {
         let inner = self.inner();
 
         // Synchronize with `drop`
+        #[cfg(assets_manager_verif)]
+        detsim::atomic_point(detsim::AT_BYTES, "bytes.drop_slow");
         inner.count.load(Ordering::Acquire);
 
         let layout = if inner.capacity != 0 {
